@@ -434,6 +434,7 @@ def check_trace(case, executed, trace):
     live = False               # a connection exists or is being established and has not been announced down
     conn_up_d = None
     reconnect_expected = False
+    unanswered = 0
     for i, (ev, obs) in enumerate(trace):
         ups = obs.count("up")
         downs = obs.count("downNear")
@@ -461,6 +462,19 @@ def check_trace(case, executed, trace):
                 break
             up_open = False
             live = any(o.startswith("created") for o in obs) and obs.index("downNear") < max(j for j, o in enumerate(obs) if o.startswith("created"))
+        # keep-alive: a connection may be closed at a tick only if a ping written to THIS connection is still unanswered
+        if ev.startswith("dConnected"):
+            unanswered = 0
+        if ev == "pong:1":
+            unanswered = max(0, unanswered - 1)
+        if ev == "pingTick":
+            closed_now = any(o.startswith("closed") for o in obs)
+            if closed_now and unanswered == 0:
+                out.append(oracle("C16:ping-timeout-without-unanswered-ping", "history %s: the keep-alive closed the connection at this tick although no ping written to this "
+                                  "connection is unanswered (state of an earlier connection leaked)" % executed[:i + 1]))
+                break
+            if any(o.startswith("written") for o in obs) and not closed_now:
+                unanswered += 1
         if ev == "success" and obs.count("authed") != 1:
             out.append(oracle("C16:authed-not-once", "history %s: success announced authed %d time(s)" % (executed[:i + 1], obs.count("authed"))))
             break
